@@ -203,16 +203,36 @@ func (r *Report) Write() {
 	}
 }
 
-// Current writes the case about to be executed next to the report file so
+// Current records the case about to be executed next to the report file so
 // that the runner can name it if the process dies (panic in a library
-// goroutine, wedge killed by the supervisor).
+// goroutine, wedge killed by the supervisor). One pwrite on a descriptor that
+// stays open: creating a file per case costs milliseconds on this file system.
 func Current(v any) {
 	if *flagOut == "" {
 		return
 	}
 	b, _ := json.Marshal(v)
-	_ = os.WriteFile(*flagOut+".current", b, 0o644) //nolint:gosec
+	curMu.Lock()
+	defer curMu.Unlock()
+	if curFile == nil {
+		f, err := os.OpenFile(*flagOut+".current", os.O_CREATE|os.O_RDWR|os.O_TRUNC, 0o644) //nolint:gosec
+		if err != nil {
+			return
+		}
+		curFile = f
+	}
+	for len(b) < curLen {
+		b = append(b, ' ')
+	}
+	curLen = len(b)
+	_, _ = curFile.WriteAt(b, 0)
 }
+
+var (
+	curMu   sync.Mutex
+	curFile *os.File
+	curLen  int
+)
 
 // ---------------------------------------------------------------------------
 // Choice-sequence enumeration (stateless DFS by prefix replay).
